@@ -317,7 +317,7 @@ func c13One(c *Ctx, id, scen string, state, ii int, r0 *rand.Rand) {
 			c.Violate("remote input is not answered with a well-formed response", id, desc, "HTTP status of the HAP vocabulary", fmt.Sprint(st))
 		}
 		if st == 200 && m.CType == "application/pairing+tlv8" {
-			if _, ok := refTlvParse(body); !ok {
+			if _, ok := refTlvParseStrict(body); !ok {
 				c.Violate("remote input is answered with a malformed TLV8 body", id, desc, "TLV8", hx(body))
 			}
 		}
